@@ -28,7 +28,7 @@ func (w *World) canonMapOrder(c *Cont) ([]int, error) {
 		}
 		b := atree.NewDefaultDigesterBuilder()
 		b.SetSeed(c.Map.Seed(), 0)
-		dg, err := b.Digest(tu.GetHashInput, ToAtree(k))
+		dg, err := b.Digest(GetHashInput, ToAtree(k))
 		if err != nil {
 			return nil, fmt.Errorf("harness: digest: %w", err)
 		}
@@ -341,7 +341,7 @@ func (w *World) OIterMap(c *Cont) error {
 		}
 	}
 	// mutable flavours
-	got, err = drainMap(m.Iterator(tu.CompareValue, tu.GetHashInput))
+	got, err = drainMap(m.Iterator(CompareValue, GetHashInput))
 	if err != nil {
 		return violf("%sIterator: %v", name, err)
 	}
@@ -349,21 +349,21 @@ func (w *World) OIterMap(c *Cont) error {
 		return err
 	}
 	got = nil
-	if err := m.Iterate(tu.CompareValue, tu.GetHashInput, func(k, v atree.Value) (bool, error) { got = append(got, kvPair{k, v}); return true, nil }); err != nil {
+	if err := m.Iterate(CompareValue, GetHashInput, func(k, v atree.Value) (bool, error) { got = append(got, kvPair{k, v}); return true, nil }); err != nil {
 		return violf("%sIterate: %v", name, err)
 	}
 	if err := w.cmpPairs(name+"Iterate", got, c, order); err != nil {
 		return err
 	}
 	got = nil
-	if err := m.IterateKeys(tu.CompareValue, tu.GetHashInput, func(k atree.Value) (bool, error) { got = append(got, kvPair{k, nil}); return true, nil }); err != nil {
+	if err := m.IterateKeys(CompareValue, GetHashInput, func(k atree.Value) (bool, error) { got = append(got, kvPair{k, nil}); return true, nil }); err != nil {
 		return violf("%sIterateKeys: %v", name, err)
 	}
 	if err := w.cmpPairs(name+"IterateKeys", got, c, order); err != nil {
 		return err
 	}
 	got = nil
-	if err := m.IterateValues(tu.CompareValue, tu.GetHashInput, func(v atree.Value) (bool, error) { got = append(got, kvPair{nil, v}); return true, nil }); err != nil {
+	if err := m.IterateValues(CompareValue, GetHashInput, func(v atree.Value) (bool, error) { got = append(got, kvPair{nil, v}); return true, nil }); err != nil {
 		return violf("%sIterateValues: %v", name, err)
 	}
 	if err := w.cmpPairs(name+"IterateValues", got, c, order); err != nil {
@@ -371,7 +371,7 @@ func (w *World) OIterMap(c *Cont) error {
 	}
 	// keyed access agrees
 	for i, k := range c.Keys {
-		v, err := m.Get(tu.CompareValue, tu.GetHashInput, ToAtree(k))
+		v, err := m.Get(CompareValue, GetHashInput, ToAtree(k))
 		if err != nil {
 			return violf("%sGet(%s): %v", name, MVString(k), err)
 		}
@@ -601,7 +601,7 @@ func OReadOnlyMutation(w *World) error {
 			case *atree.Array:
 				err = h.Append(tu.Uint64Value(1))
 			case *atree.OrderedMap:
-				_, err = h.Set(tu.CompareValue, tu.GetHashInput, tu.Uint64Value(77), tu.Uint64Value(1))
+				_, err = h.Set(CompareValue, GetHashInput, tu.Uint64Value(77), tu.Uint64Value(1))
 			default:
 				continue
 			}
